@@ -37,6 +37,7 @@ def make_plan(tape, prop):
     plan["nproc"] = 4 + tape.draw(5)          # how many fresh-interpreter configurations are executed
     plan["pick"] = [tape.draw(1 << 10) for _ in range(12)]
     plan["unrelated"] = tape.draw(1 << 16)
+    plan["variant"] = tape.draw(2)      # 1: every independent input sits in its own directory next to its own defs.prophy
     return plan
 
 
@@ -87,6 +88,17 @@ class DetRun(object):
             inputs = ["single.prophy"]
         else:
             common, tails = sp
+            if self.plan.get("variant") == 1 and len(tails) >= 2:
+                # same include name, different file per including directory: d<k>/tail<k>.prophy includes "defs.prophy"
+                inputs = []
+                for k, t in enumerate(tails):
+                    files["d%d/defs.prophy" % k] = render.prophy_text({"defs": common}) + \
+                        "\nconst DIRK = %d;\nconst ONLY_%d = 1;\n" % (k + 1, k)
+                    files["d%d/tail%d.prophy" % (k, k)] = render.prophy_text({"defs": [t]}, includes=["defs.prophy"]) + \
+                        "\nstruct XDir%d { u8 pad[DIRK]; };\n" % k
+                    inputs.append("d%d/tail%d.prophy" % (k, k))
+                self.faults["same_include_name_in_two_directories"] = 1
+                return files, inputs
             files["common.prophy"] = render.prophy_text({"defs": common})
             inputs = []
             for k, t in enumerate(tails):
@@ -124,16 +136,17 @@ class DetRun(object):
     def run(self):
         plan = self.plan
         files, inputs = self.layout()
-        bases = [os.path.splitext(i)[0] for i in inputs]
+        bases = [os.path.splitext(os.path.basename(i))[0] for i in inputs]
         root = tempfile.mkdtemp(prefix="verif-det-", dir="/dev/shm" if os.path.isdir("/dev/shm") else None)
         try:
             os.makedirs(os.path.join(root, "src"))
             os.makedirs(os.path.join(root, "other", "deep"))
             for n, t in files.items():
+                os.makedirs(os.path.dirname(os.path.join(root, "src", n)), exist_ok=True)
                 with open(os.path.join(root, "src", n), "w") as f:
                     f.write(t)
             cwds = [root, os.path.join(root, "src"), os.path.join(root, "other", "deep")]
-            indep = [i for i in inputs if i.startswith("tail")] or inputs
+            indep = [i for i in inputs if os.path.basename(i).startswith("tail")] or inputs
             rest = [i for i in inputs if i not in indep]
             orders = [list(p) + rest for p in itertools.permutations(indep)][:6]
             configs = []
@@ -230,7 +243,7 @@ class DetRun(object):
             self.count("in_process_compiles")
             if alone is None:
                 return self.v("rc", "C20/compile-alone-fails", "%s compiles together with the others but not alone" % i)
-            b = os.path.splitext(i)[0]
+            b = os.path.splitext(os.path.basename(i))[0]
             for k, val in alone.items():
                 if k.startswith(b + ".") and first.get(k) != val:
                     return self.v("content", "C20/output-differs/alone-vs-together/%s" % os.path.splitext(k)[1],
